@@ -200,10 +200,12 @@ def reaching_value(path, upto, name):
 _BORROW_CACHE = {}
 
 
-def borrow(repo, res, tier, module, rules, prefix):
+def borrow(repo, res, tier, module, rules, prefix, keep=None):
     """Run another property's rules and adopt the instances/findings of the given
     rule ids under `prefix` (e.g. C18.V3 -> C07.B7[C18.V3]).  Used where one
-    mechanism carries two properties; the rule text stays with its owner."""
+    mechanism carries two properties; the rule text stays with its owner.
+    `keep(finding)` restricts the adopted findings to the kinds that also break the
+    borrower's property (the instances are adopted all the same)."""
     from ..report import Result, Finding, Instance
     import copy as _copy
     if getattr(res, '_no_borrow', False):
@@ -221,7 +223,7 @@ def borrow(repo, res, tier, module, rules, prefix):
             i.rule = '%s[%s]' % (prefix, i0.rule)
             res.instances.append(i)
     for f0 in tmp.findings:
-        if f0.rule in rules:
+        if f0.rule in rules and (keep is None or keep(f0)):
             f = _copy.copy(f0)
             f.rule = '%s[%s]' % (prefix, f0.rule)
             f.prop = res.prop
